@@ -5,6 +5,7 @@ import (
 	"math"
 	"math/big"
 	"math/rand"
+	"reflect"
 	"strconv"
 	"strings"
 )
@@ -107,6 +108,9 @@ func initTable() {
 				k = "fNaN"
 			}
 		}
+		if s.gk != reflect.Invalid {
+			k = fmt.Sprintf("%s/%d/%s", s.gk, s.shape, k)
+		}
 		if !seen[k] {
 			seen[k] = true
 			table = append(table, s)
@@ -191,6 +195,40 @@ func initTable() {
 	}
 	fbounds = append(fbounds, maxF32, -maxF32, f32Limit, -f32Limit, maxDurS, -maxDurS, 9007199.254740992, math.SmallestNonzeroFloat32, math.MaxFloat64, 4611686018.427388)
 
+	// Go input values of the sized types (goinput.go): the edges of each type,
+	// float32 values whose shortest decimal text is another number, each in
+	// one of the containers (round robin)
+	shape := 0
+	typed := func(x src, k reflect.Kind) {
+		x.gk, x.shape = k, shape%nShapes
+		shape++
+		push(x)
+	}
+	for _, k := range intKinds {
+		b := uint(goTypes[k].Bits())
+		typed(srcI(-1<<(b-1)), k)
+		typed(srcI(1<<(b-1)-1), k)
+	}
+	for _, k := range uintKinds {
+		b := uint(goTypes[k].Bits())
+		typed(srcU(1<<b-1), k) // (1<<64 wraps to 0: MaxUint64)
+	}
+	typed(srcI(-1), reflect.Int8)
+	typed(srcU(200), reflect.Uint8)
+	for _, x := range []float32{math.MaxFloat32, -math.MaxFloat32, math.Nextafter32(math.MaxFloat32, 0), math.SmallestNonzeroFloat32, 1.17549435e-38,
+		1e15, -1e15, 3e10, 1e10, 1e19, 1e20, 1e38, 123456789, 16777216, 16777218, 1 << 31, -(1 << 31), math.Nextafter32(1<<31, 0), 1 << 63, -(1 << 63), math.Nextafter32(1<<63, 0),
+		1 << 64, math.Nextafter32(1<<64, 0), 9223372036, 9223372037, 0.1, 0.3, 1.5, 127.9, 255.5, float32(math.Inf(1)), float32(math.Inf(-1)), float32(math.NaN())} {
+		typed(srcF(float64(x)), reflect.Float32)
+	}
+	typed(srcF(1e15), reflect.Float64)
+	typed(srcF(0.1), reflect.Float64)
+
+	// numerals behind a run of signs: text in no syntax strconv reads
+	for _, s := range []string{"++7", "+-7", "-+7", "--7", "+++0x10", "++0", "--0", "++18446744073709551615", "+-9223372036854775808", "--9223372036854775809",
+		"++1.5", "--1e3", "++0b11", "-+017", "++1_000", "+-+1", "++Inf"} {
+		push(srcS(s))
+	}
+
 	// booleans and strings in no numeric syntax
 	push(srcB(true))
 	push(srcB(false))
@@ -224,7 +262,24 @@ func stepFloat(f float64, k int) float64 {
 
 func pickSpelling(r *rand.Rand, l []string) string { return l[r.Intn(len(l))] }
 
+// randomSrc: a random value; two in nineteen are float32 Go inputs, one is a
+// numeral behind a run of signs, and every third numeric value of the others
+// is handed over as a sized Go type that holds it exactly.
 func randomSrc(r *rand.Rand) src {
+	switch r.Intn(19) {
+	case 0, 1:
+		return randomFloat32(r)
+	case 2:
+		return randomSignRun(r)
+	}
+	s := randomSrc0(r)
+	if r.Intn(3) == 0 {
+		s = retype(r, s)
+	}
+	return s
+}
+
+func randomSrc0(r *rand.Rand) src {
 	b := bounds[r.Intn(len(bounds))]
 	d := int64(r.Intn(9) - 4)
 	v := new(big.Int).Add(b, big.NewInt(d))
